@@ -18,7 +18,7 @@ TIERS = {"quick": {"shards": 8, "cases": 6000}, "thorough": {"shards": 16, "case
 FLOOR_BASE = {"quick": 600, "thorough": 8000}    # case counts the floors below were calibrated for; the launcher scales them
 FUNCS = {("bool", False): "solve_pubo_bruteforce", ("bool", True): "solve_qubo_bruteforce",
          ("spin", False): "solve_puso_bruteforce", ("spin", True): "solve_quso_bruteforce"}
-PREDS = ["all", "parity", "none", "one", "card", "reads-model"]
+PREDS = ["all", "parity", "none", "one", "card", "reads-model", "nested-solve"]
 
 
 def FLOORS(tier):
@@ -216,6 +216,14 @@ def case(ctx, rng, idx):
             return True
         if pk == "none":
             return False
+        if pk == "nested-solve":
+            # "minimise F over the assignments that G's own minimiser agrees with on the first variable": the predicate itself calls
+            # a brute-force solver (over the same labels)
+            if count and tv:
+                g_ = {(tv[0],): 1, (tv[-1],): -1} if len(tv) > 1 else {(tv[0],): 1}
+                _, gs_ = (L.utils.solve_puso_bruteforce if kind == "spin" else L.utils.solve_pubo_bruteforce)(g_)
+                return x[tv[0]] == gs_[tv[0]]
+            return (x[tv[0]] == (vals[1] if kind == "spin" else vals[0])) if tv else True
         if pk == "parity":
             return sum(1 for v in tv if x[v] == vals[1]) % 2 == 0
         if pk == "card":
